@@ -60,6 +60,15 @@ def gen_cases(rng, quick):
                 add(t, pts, ("zeroinf",), rng.choice([0, 2, 4]), 10 ** rng.uniform(-1, 1), rng.uniform(0, 2))
             else:
                 add(t, pts, ("rminmax", zeta, c), rng.choice([0, 2, 5, 9]), zeta, c)
+    # diffuse envelopes centred far out: the window's lower limit is clipped at 0 only because of its width
+    for _ in range(6 if quick else 40):
+        zeta = 10 ** rng.uniform(-2, -0.3)
+        c = rng.uniform(3, 30)
+        add(rng.choice([0, 0, 1]), rng.choice([127, 255, 383, 511]), ("rminmax", zeta, c), rng.choice([0, 1, 2, 7]), zeta, c)
+    # half-line grids with the mass of the integrand well away from r = 0 (what a prescreened sub-range is for)
+    for _ in range(6 if quick else 40):
+        zeta = 10 ** rng.uniform(-1.5, 0.5)
+        add(rng.choice([0, 1]), rng.choice([63, 127, 255, 191, 383]), ("zeroinf",), rng.choice([8, 12, 16, 20]), zeta, rng.uniform(0, 1.5) / math.sqrt(zeta))
     # sub-ranges (start/end clipping): only compared with the model
     for _ in range(6 if quick else 60):
         t = rng.choice([0, 1])
@@ -176,6 +185,60 @@ def explore(ctx):
                               "finest_level_error": abs(traces[ci]["finest"] - ref),
                               "what": "converged=true with value %r, exact integral %r: error %.3g exceeds sqrt(tol*|I|)+1e-12 = %.3g (tol %g, %s scheme, %d points, transform %s, r^%d exp(-%g (r-%g)^2))"
                                       % (val, ref, err, allowed, tol, "one-point" if c["type"] == 0 else "two-point", windows[ci][4], c["tr"][0], c["k"], c["zeta"], c["c"])})
+    # second pass: the same integrals over the sub-range [first, last] of grid points where the integrand is not negligible
+    # (what the library's prescreening passes as start/end); skipping negligible points must not change the answer
+    sub, subref = [], []
+    refmap = dict(zip(omap, refs))
+    for ci, c in enumerate(cases):
+        if ci not in refmap or c["tr"][0] == "none":
+            continue
+        xs = next(([unhex(h) for h in l.split()[1:]] for l in real_blocks[ci] if l.startswith("X ")), None)
+        if not xs:
+            continue
+        fv = []
+        for x in xs:
+            try:
+                fv.append(abs(x) ** c["k"] * math.exp(-c["zeta"] * (x - c["c"]) ** 2) if x != 0 or c["k"] > 0 else math.exp(-c["zeta"] * c["c"] ** 2))
+            except OverflowError:
+                fv.append(float("inf"))
+        fm = max(fv)
+        if not (fm > 0) or fm == float("inf"):
+            continue
+        keep = [i for i, v in enumerate(fv) if v > 1e-26 * fm]
+        if not keep or (keep[0] == 0 and keep[-1] == len(xs) - 1):
+            continue
+        d = dict(c); d["range"] = (keep[0], keep[-1])
+        sub.append(d); subref.append(refmap[ci])
+    n_sub = 0
+    if sub:
+        r2 = subprocess.run([drv], input="\n".join(case_line(c) for c in sub) + "\n", stdout=subprocess.PIPE, stderr=subprocess.PIPE, text=True)
+        if r2.returncode != 0:
+            raise RuntimeError("corr_quad failed on the sub-range pass: " + r2.stderr[-500:])
+        blocks2, cur, tr2 = [], [], []
+        for l in r2.stdout.split("\n"):
+            if l.startswith("< end"):
+                blocks2.append(cur); cur = []
+            elif l.startswith("< "):
+                cur.append(l[2:])
+            elif l.startswith("# T"):
+                t = l.split(); k = t.index("finest")
+                tr2.append({"evals": [int(x) for x in t[2:k]], "finest": unhex(t[k + 1]), "finest_evals": int(t[k + 2])})
+        for c, ref, blk, trc in zip(sub, subref, blocks2, tr2):
+            res = [l.split() for l in blk if l.startswith("I ")]
+            for ti, (tol, rr) in enumerate(zip(c["tols"], res)):
+                val, conv = unhex(rr[1]), rr[2] == "1"
+                if not conv:
+                    continue
+                n_sub += 1
+                allowed = math.sqrt(tol * abs(ref)) + 1e-12 + 1e-13 * abs(ref)
+                err = abs(val - ref)
+                if err > allowed:
+                    fails.append({"case": case_line(c), "tolerance": tol, "returned": val, "exact": ref, "error": err, "allowed": allowed, "grid": c["points"],
+                                  "evals_at_acceptance": trc["evals"][ti], "finest_level_value": trc["finest"], "finest_level_evals": trc["finest_evals"],
+                                  "finest_level_error": abs(trc["finest"] - ref),
+                                  "what": "sub-range [%d, %d] that skips only negligible grid points: converged=true with value %r, exact integral %r (error %.3g, allowed %.3g; %s scheme, %d points, transform %s, r^%d exp(-%g (r-%g)^2))"
+                                          % (c["range"][0], c["range"][1], val, ref, err, allowed, "one-point" if c["type"] == 0 else "two-point", c["points"], c["tr"][0], c["k"], c["zeta"], c["c"])})
+    ctx.coverage["sub_range_results_checked_against_oracle"] = n_sub
     ctx.coverage.update({"cases": len(cases), "values_compared_bitwise": n_cmp, "traces_validated_against_impl": n_cmp,
                          "oracle_integrals": len(refs), "converged_results_checked": n_conv, "not_converged": n_notconv,
                          "worst_error_over_allowed": worst_ratio, "grid_sizes": sorted({w[4] for w in windows})})
